@@ -16,7 +16,8 @@ from .tlaparse import find_prints
 
 LEX = {'word': 'abc', 'star': '*', 'decimal': '1.50', 'int0': '007', 'estr': "''", 'str': "'x y'", 'dstr': "'it''s'",
        'bstr': "'a\\'b'", 'dq': '"d q"', 'var': '@v', 'sysvar': '@@sv', 'qvar': '@`a b`', 'paren': '( abc , ( 1 ) )',
-       'eq': '=', 'comma': ',', 'param': '?', 'nlstr': "'l1\n  l2'"}
+       'eq': '=', 'comma': ',', 'param': '?', 'nlstr': "'l1\n  l2'",
+       'dq2sq': '"rock \'\'n\'\' roll"', 'semistr': "'s1;s2'", 'semibq': '`a;b`'}
 SEP = {'sp': ' ', 'sp2': '   ', 'nl': '\n', 'nlind': '\n    ', 'blockcmt': ' /* c */ ', 'linecmt': ' -- c\n', 'nl2': '\n\n'}
 TEMPLATES = [
     ('create_model', 'CREATE MODEL m FROM db (', ') PREDICT y', lambda q: q.query_str),
@@ -113,6 +114,8 @@ def lexeme_class(lx):
             return 'string-backslash'
         return 'string'
     if lx.startswith('"'):
+        if "''" in lx:
+            return 'dq-string-with-two-single-quotes'
         return 'dq-string'
     if lx.startswith('@@'):
         return 'system-variable'
